@@ -1,6 +1,7 @@
 import Proofs.OalLex
 import Proofs.OalParseCase
 import Proofs.OalBridge
+import Proofs.OalKwCase
 import PyxModel.Oal.LexGen
 import Gen.OalPrec
 
@@ -102,6 +103,33 @@ theorem norm_case_idempotent (cfg : LexCfg) (t : Tok) : normTok cfg (normTok cfg
 theorem consumers_normalise :
     (Gen.OalLex.consumers.all fun c => c.normalised) = true ∧ Gen.OalLex.consumers.length ≥ 30 := by decide
 
+/-- keyword_any_case_as_in_source (one lexer step): for EVERY entry `k` of the reserved-word table generated from
+    `OALParser.keywords` and EVERY spelling `s` of it (any mix of upper and lower case: `s` and `k` agree after ASCII
+    lower-casing), followed by the end of the text or by layout, the first rule of the generated rule table that
+    matches is `t_ID` (rule 8), it matches exactly `s`, and the token type the model assigns is `k` - not `ID`.
+    Proved by induction over the characters of the spelling; what is decided about the table is only the shape of
+    its entries (`gen_kwTableOk`: upper-case words `[A-Z_][0-9A-Z_]*`, none of them `END`). -/
+theorem keyword_any_case_as_in_source (k : List Char) (hk : k ∈ Gen.OalLex.keywords) (s : List Char)
+    (hs : s.map lowerAscii = k.map lowerAscii) (t : List Char) (ht : TailOk t) :
+    firstMatch Gen.OalLex.rules (s ++ t) = some (R 8, s.length) ∧ kindOf Gen.OalLex.cfg (R 8) s = k :=
+  keyword_step k hk s hs t ht
+
+/-- keywords_any_case_lexed_as_in_source (the whole lexer): any sequence of entries of the generated reserved-word
+    table, each written in any letter case, with any layout between them (`KwItemsOk`), is returned by `lex` as
+    exactly the sequence of keyword tokens of those entries, each with its lexeme as written -/
+theorem keywords_any_case_lexed_as_in_source (sep0 : List Char) (items : List (List Char × List Char × List Char))
+    (h0 : Layout0 sep0) (h : KwItemsOk items) :
+    (lex (sep0 ++ render items)).map (fun t => (t.kind, t.lexeme)) = items.map (fun i => (i.1, i.2.1)) :=
+  keywords_lexed sep0 items h0 h
+
+/-- every case variant of every table entry is, conversely, outside the identifiers: the kind is never `ID` -/
+theorem keyword_never_identifier (k : List Char) (hk : k ∈ Gen.OalLex.keywords) (s : List Char)
+    (hs : s.map lowerAscii = k.map lowerAscii) : kindOf Gen.OalLex.cfg (R 8) s ≠ idName := by
+  rw [(keyword_step k hk s hs [] .nil).2]
+  intro h
+  rw [h] at hk
+  revert hk; decide
+
 /-! non-vacuity -/
 
 def lowerText : List Char := "select many xs from A; if (not empty xs) x = true; end if;".toList
@@ -116,6 +144,23 @@ example : ((lex mixedText).map (fun t => String.ofList t.kind)).take 6 = ["SELEC
 example : (lex "x = A;".toList).map (normTok Gen.OalLex.cfg) ≠ (lex "x = a;".toList).map (normTok Gen.OalLex.cfg) := by
   decide
 
+
+/-- keyword_any_case_as_in_source / keywords_any_case_lexed_as_in_source applied: `sElEcT`, then a block comment,
+    `MaNy`, a line break, `not_EMPTY` -/
+private def kwItems : List (List Char × List Char × List Char) :=
+  [("SELECT".toList, "sElEcT".toList, "/* c */".toList), ("MANY".toList, "MaNy".toList, "\n".toList),
+   ("NOT_EMPTY".toList, "not_EMPTY".toList, [])]
+private theorem kwItems_ok : KwItemsOk kwItems :=
+  .cons _ _ _ _ (by decide) (by decide) (.comment " c */".toList [] (by decide) .nil) (by decide)
+    (.cons _ _ _ _ (by decide) (by decide) (.ws '\n' [] (by decide) .nil) (by decide)
+      (.cons _ _ _ _ (by decide) (by decide) .nil (fun _ => rfl) .nil))
+example : (lex (" ".toList ++ render kwItems)).map (fun t => (t.kind, t.lexeme)) =
+    [("SELECT".toList, "sElEcT".toList), ("MANY".toList, "MaNy".toList), ("NOT_EMPTY".toList, "not_EMPTY".toList)] :=
+  keywords_any_case_lexed_as_in_source _ kwItems (.ws ' ' [] (by decide) .nil) kwItems_ok
+example := keyword_any_case_as_in_source "WHILE".toList (by decide) "wHiLe".toList (by decide) " x".toList
+  (.cons ' ' _ (Or.inl rfl))
+/-- a word that is no case variant of an entry stays an identifier -/
+example : kindOf Gen.OalLex.cfg (R 8) "selects".toList = idName := by decide
 
 /-! parser level (model: the token-level statement / expression parser of C07, PyxModel/Oal/{Expr,Stmt}.lean, for
     ANY precedence table): two token streams that differ only in the spelling of keyword lexemes parse to
